@@ -50,6 +50,17 @@ func (c *Ctx) newRef(hint string) string {
 		c.allocClock++
 		c.asserts = append(c.asserts, fmt.Sprintf("(= (atime %s) %d)", r, c.allocClock))
 	}
+	// memory allocated inside an iteration of loop N is "born in" that iteration (builtin
+	// bornin(x, N)); nothing is known about references carried over from earlier iterations
+	if c.curBlk != nil && len(c.inlineStack) == 0 {
+		for h, ord := range c.loopOrd {
+			if h == c.curBlk || loopBody(h)[c.curBlk] {
+				fn := fmt.Sprintf("bornin!%d", ord)
+				c.declareFun(fn, []string{"Int"}, "Bool")
+				c.asserts = append(c.asserts, sApp(fn, r))
+			}
+		}
+	}
 	c.allocRefs = append(c.allocRefs, r)
 	return r
 }
